@@ -8,9 +8,12 @@ CONSTANTS
   LH = 4
   MaxArgsH = 2
   MaxSpare = 2
-  Kinds = {"args", "cut", "utr", "chain", "conv", "bare", "tr"}
+  LG = 2
+  MaxFeats = 3
+  Kinds = {"args", "cut", "utr", "chain", "conv", "bare", "tr", "gene"}
 INVARIANTS
   AcceptedIffAcceptable AcceptedTiles RejectionMeaning CutsAccepted UTRsTile
   PositionsAdd OrientationsMultiply ConversionsInverse
   RejectedAtomic AcceptedResult HeldContract DeadBranch
+  GeneAcceptedIffAcceptable GeneRejectedAtomic GeneAcceptedResult GeneBoundsAgree
 CHECK_DEADLOCK FALSE
